@@ -108,8 +108,9 @@ class InteractiveParser:
         # We don't want to call callbacks here since those might have arbitrary side effects
         # and are unnecessarily slow.
         conf_no_callbacks.callbacks = {}
+        rule_names = self.parser_state.parse_conf.rule_names
         for t in self.choices():
-            if t.isupper(): # is terminal?
+            if t not in rule_names: # is terminal?
                 new_cursor = self.copy(deepcopy_values=False)
                 new_cursor.parser_state.parse_conf = conf_no_callbacks
                 try:
